@@ -10,6 +10,13 @@ A network description is
    "inputs":[..], "outputs":[..]}
 "data" is either a list of numbers or {"rng":seed,"lo":a,"hi":b} (integers drawn with numpy default_rng)
 or {"fill": v}.
+Optional fields (only written when the key is present, so descriptions without them build byte-identically):
+tensor  "min"/"max" (float lists of the quantisation table, with or without "scale"), "shape_signature" (int list),
+        "has_rank" (bool), "is_variable" (bool), "buffer_of" (index of an earlier tensor whose buffer is shared);
+operator inputs / outputs / intermediates may contain -1 (omitted optional operand), "mutating_variable_inputs"
+        (bool list); option values may be ints / bools / floats, int lists (int32 vector), {"f32": [..]} (float
+        vector) or str (string);
+model   "metadata": [{"name": str, "data": [byte values]}].
 """
 import importlib
 
@@ -20,7 +27,7 @@ from .common import ensure_repo_on_path
 
 ensure_repo_on_path()
 from ethosu.vela.tflite import (Model, SubGraph, Tensor, Buffer, Operator, OperatorCode,  # noqa: E402
-                                QuantizationParameters, BuiltinOperator, BuiltinOptions, TensorType)
+                                QuantizationParameters, BuiltinOperator, BuiltinOptions, TensorType, Metadata)
 
 BO = BuiltinOperator.BuiltinOperator
 BOPT = BuiltinOptions.BuiltinOptions
@@ -78,24 +85,38 @@ def build(net):
         return b.EndVector()
 
     tens = []
+    tbuf = []
     for t in net["tensors"]:
         name = b.CreateString(t["name"])
         shape = vec("i32", t["shape"]) if t.get("shape") is not None else None
         q = None
-        if t.get("scale") is not None:
-            sc = vec("f32", t["scale"])
-            zp = vec("i64", t.get("zp", [0] * len(t["scale"])))
+        if t.get("scale") is not None or t.get("min") is not None or t.get("max") is not None:
+            mn = vec("f32", t["min"]) if t.get("min") is not None else None
+            mx = vec("f32", t["max"]) if t.get("max") is not None else None
+            sc = zp = None
+            if t.get("scale") is not None:
+                sc = vec("f32", t["scale"])
+                zp = vec("i64", t.get("zp", [0] * len(t["scale"])))
             QuantizationParameters.Start(b)
-            QuantizationParameters.AddScale(b, sc)
-            QuantizationParameters.AddZeroPoint(b, zp)
+            if mn is not None:
+                QuantizationParameters.AddMin(b, mn)
+            if mx is not None:
+                QuantizationParameters.AddMax(b, mx)
+            if sc is not None:
+                QuantizationParameters.AddScale(b, sc)
+                QuantizationParameters.AddZeroPoint(b, zp)
             if t.get("qdim") is not None:
                 QuantizationParameters.AddQuantizedDimension(b, t["qdim"])
             q = QuantizationParameters.End(b)
         bi = 0
         d = _data(t)
-        if d is not None:
+        if t.get("buffer_of") is not None:
+            bi = tbuf[t["buffer_of"]]
+        elif d is not None:
             buffers.append(d.tobytes())
             bi = len(buffers) - 1
+        tbuf.append(bi)
+        ssig = vec("i32", t["shape_signature"]) if t.get("shape_signature") is not None else None
         Tensor.Start(b)
         if shape is not None:
             Tensor.AddShape(b, shape)
@@ -106,6 +127,10 @@ def build(net):
             Tensor.AddQuantization(b, q)
         if t.get("is_variable"):
             Tensor.AddIsVariable(b, True)
+        if ssig is not None:
+            Tensor.AddShapeSignature(b, ssig)
+        if t.get("has_rank"):
+            Tensor.AddHasRank(b, True)
         tens.append(Tensor.End(b))
 
     opcodes = []
@@ -122,6 +147,11 @@ def build(net):
             modname, fields = o["opts"]
             mod = importlib.import_module("ethosu.vela.tflite." + modname)
             pre = {k: vec("i32", v) for k, v in fields.items() if isinstance(v, (list, tuple))}
+            for k, v in fields.items():
+                if isinstance(v, dict):
+                    pre[k] = vec("f32", v["f32"])
+                elif isinstance(v, str):
+                    pre[k] = b.CreateString(v)
             mod.Start(b)
             for k, v in fields.items():
                 getattr(mod, "Add" + k)(b, pre.get(k, v))
@@ -129,6 +159,9 @@ def build(net):
             opt_type = getattr(BOPT, modname)
         cust = vec("u8", o["custom_options"]) if o.get("custom_options") is not None else None
         inter = vec("i32", o["intermediates"]) if o.get("intermediates") else None
+        mvi = None
+        if o.get("mutating_variable_inputs") is not None:
+            mvi = b.CreateByteVector(bytes(1 if x else 0 for x in o["mutating_variable_inputs"]))
         Operator.Start(b)
         Operator.AddOpcodeIndex(b, opcodes.index(key))
         Operator.AddInputs(b, ins)
@@ -140,6 +173,8 @@ def build(net):
             Operator.AddCustomOptions(b, cust)
         if inter is not None:
             Operator.AddIntermediates(b, inter)
+        if mvi is not None:
+            Operator.AddMutatingVariableInputs(b, mvi)
         ops.append(Operator.End(b))
 
     tv = vec("off", tens)
@@ -167,6 +202,9 @@ def build(net):
             OperatorCode.AddCustomCode(b, ccs)
         ocs.append(OperatorCode.End(b))
     ocv = vec("off", ocs)
+    md_first = len(buffers)
+    for md in net.get("metadata") or []:
+        buffers.append(bytes(md["data"]))
     bufs = []
     for d in buffers:
         dv = None
@@ -179,6 +217,16 @@ def build(net):
         if dv is not None:
             Buffer.AddData(b, dv)
         bufs.append(Buffer.End(b))
+    mdv = None
+    if net.get("metadata"):
+        mds = []
+        for k, md in enumerate(net["metadata"]):
+            nm = b.CreateString(md["name"])
+            Metadata.Start(b)
+            Metadata.AddName(b, nm)
+            Metadata.AddBuffer(b, md_first + k)
+            mds.append(Metadata.End(b))
+        mdv = vec("off", mds)
     bv = vec("off", bufs)
     sgv = vec("off", [sg])
     desc = b.CreateString(net.get("description", "verif"))
@@ -188,6 +236,8 @@ def build(net):
     Model.AddSubgraphs(b, sgv)
     Model.AddDescription(b, desc)
     Model.AddBuffers(b, bv)
+    if mdv is not None:
+        Model.AddMetadata(b, mdv)
     m = Model.End(b)
     b.Finish(m, b"TFL3")
     return bytes(b.Output())
